@@ -6,6 +6,7 @@ import (
 	"fmt"
 	"net"
 	"os"
+	"sync/atomic"
 	"time"
 
 	"github.com/smart-core-os/sc-golang/internal/testproto"
@@ -48,7 +49,9 @@ func newWrapTransport() *transport {
 }
 
 func newGrpcTransport() (*transport, error) {
-	srv := &scriptSrv{}
+	// settle: on a real server a handler that has just seen ctx.Done() may be ahead of the transport by a
+	// few instructions (closeStream cancels the context before it marks the stream done)
+	srv := &scriptSrv{settle: true}
 	lis := bufconn.Listen(1 << 20)
 	gs := grpc.NewServer()
 	testproto.RegisterTestApiServer(gs, srv)
@@ -695,7 +698,8 @@ func genC13(o *vcoq.Out, r *vcoq.Rand, tier string) error {
 	abandonCases(o)
 	o.Extra["coverage_extra"] = map[string]any{"transports": []string{"wrap.ServerToClient", "grpc.Server over bufconn"}, "goroutine_checks": len(scs), "deep_isolation_checks": nIso,
 		"send_then_modify_checks": 4 * nIsoSend(tier), "model_branch_classes_hit": len(branchesHit), "client_misuse_cases": 2, "unwrap_cases": 14, "grpc_reference_facts": factsEvidence,
-		"guard_pass_rate": fmt.Sprintf("%d of %d call scenarios satisfy the theorems' guard wf (Go replica of C13Judge.wf; the generator stays inside the fragment by construction)", nGuard, len(scs))}
+		"handler_calls_after_context_end": fmt.Sprintf("RecvMsg / SendMsg / SendHeader of a handler that has seen its context end fail on both transports (in both transcripts); on the real server a call that still succeeded was repeated until the transport had marked the stream done: %d repetition(s) this run", atomic.LoadInt64(&settleRetries)),
+		"guard_pass_rate":                 fmt.Sprintf("%d of %d call scenarios satisfy the theorems' guard wf (Go replica of C13Judge.wf; the generator stays inside the fragment by construction)", nGuard, len(scs))}
 	return nil
 }
 
